@@ -176,6 +176,16 @@ CHECKS = {
              "predictions (exact dyadics) and identical quantizer configurations after every route, no route raises, "
              "no user custom objects.",
         design="7 C13"),
+    "C14": dict(
+        spec="Export.tla + MC_Export + Trace_Export (+ BNFold exponents)",
+        text="TLC model-checks export histories (stored weights = quantizer applied once, second export stutters, po2 "
+             "split rebuilds) on all tiny weight vectors; real model_save_quantized_weights runs on ten weight-bearing "
+             "layer classes x six quantizer variants are recorded per (quantizer, weight) role as exact dyadics and "
+             "TLC judges: stored weight = fresh quantizer applied once, sign*2^exponent = weight, scale*integer = "
+             "weight with integers in the declared range, dictionary entry = stored weight otherwise; prediction "
+             "preservation and idempotence of a second export for data-independent and frozen scales; bn_inv / "
+             "fused_bias of conv+QBatchNormalization pairs against the batch-norm algebra on integer codes.",
+        design="7 C14"),
 }
 
 
